@@ -363,14 +363,25 @@ func execCache(id string, s *ev.Shard, root string, c CacheCase) *rp.Fail {
 					return
 				}
 				for _, w := range sp.Writes {
-					for _, l := range sp.Files {
-						if l == w.File && cur[w.File].exists && cur[w.File].content != w.Content {
-							selfModified[name] = true
+					// the file itself and every link that leads to it
+					written := []string{w.File}
+					for ln, target := range c.Links {
+						if target == w.File {
+							written = append(written, ln)
+						} else if strings.HasPrefix(w.File, target+"/") {
+							written = append(written, ln+strings.TrimPrefix(w.File, target)) // below a linked directory
 						}
 					}
-					for _, g := range sp.Globs {
-						if model.Match(g, w.File) && cur[w.File].exists && cur[w.File].content != w.Content {
-							selfModified[name] = true
+					for _, wf := range written {
+						for _, l := range sp.Files {
+							if l == wf && cur[w.File].exists && cur[w.File].content != w.Content {
+								selfModified[name] = true
+							}
+						}
+						for _, g := range sp.Globs {
+							if model.Match(g, wf) && cur[w.File].exists && cur[w.File].content != w.Content {
+								selfModified[name] = true
+							}
 						}
 					}
 					// only the content of existing files is rewritten: which files a glob denotes is
